@@ -122,6 +122,7 @@ static struct dirent* vh_readdir(DIR* d) { logc(F_READDIR, d->pos, 0, 0); if (!d
     cur_ent = dir_ent[d->pos]; d->pos++; return &cur_ent; }
 static int vh_closedir(DIR* d) { logc(F_CLOSEDIR, 0, 0, 0); if (!d->open) dir_stale_use = 1; if (nd8() & 1) { errno = any_errno(); return -1; } d->open = 0; return 0; }
 static void vh_seekdir(DIR* d, long loc) { logc(F_SEEKDIR, loc, 0, 0); if (!d->open) dir_stale_use = 1; if (loc >= 0 && loc <= dir_n) d->pos = (int)loc; }
+static void vh_rewinddir(DIR* d) { logc(F_SEEKDIR, 0, 1, 0); if (!d->open) dir_stale_use = 1; d->pos = 0; }
 static long vh_telldir(DIR* d) { if (!d->open) dir_stale_use = 1; return (long)d->pos; }
 
 /* ------------------------------------------------------------------ simple path operations */
@@ -188,6 +189,7 @@ static char* vh_strndup(const char* s, size_t n) { size_t k, l = 0; char* d; for
 #define closedir vh_closedir
 #define seekdir vh_seekdir
 #define telldir vh_telldir
+#define rewinddir vh_rewinddir
 #define mkdir vh_mkdir
 #define rmdir vh_rmdir
 #define unlink vh_unlink
